@@ -23,7 +23,7 @@ import numpy as np
 
 ID = "C18"
 LEVEL = "exploration"
-BUDGET = {"quick": 300, "thorough": 1800}
+BUDGET = {"quick": 300, "thorough": 3600}
 CHUNK = 8
 WORKER_ENV = {"NUMBA_NUM_THREADS": "16"}
 THREADS = [1, 2, 3, 4, 8, 16]
